@@ -1,5 +1,6 @@
 (** C13: generated parsers never crash or misindex on arbitrary input text. *)
-From PegV Require Import Base.Tac Spec.Syntax Spec.Peg Model.Machine Model.Gen Proofs.Forest Proofs.Top Properties.Example.
+From PegV Require Import Base.Tac Spec.Syntax Spec.Peg Model.Machine Model.Gen Model.Analyses Model.Emit Model.SEmit Model.Exec
+  Proofs.Forest Proofs.Top Proofs.SEmitFile Properties.Example.
 
 (** Whenever the semantics has a result, the machine returns a verdict - never [Crash], the model's
     value for a buffer read outside runes+sentinel, a call through a nil rule slot, or slicing the
@@ -14,6 +15,18 @@ Theorem C13_no_crash :
       (b = false -> tok_ok (length buf) (maxtok st')).
 Proof. exact c13_no_crash. Qed.
 Print Assumptions C13_no_crash.
+
+(** The same for the statements of the generated file (Model/SEmit.v under the goto semantics of Model/Exec.v, see
+    C01): no execution of the entry's function ends in [OCrash] - a read of buffer[position] outside runes + sentinel,
+    a call through a nil slot of the rule table, memoizedResult slicing the token buffer beyond its length. *)
+Theorem C13_generated_code_never_crashes :
+  forall g ptx buf penv, good_grammar g -> good_buf buf -> good_switches g ->
+  forall memo inline n r st0 rr,
+    deep_table_b g inline = true -> slot_ok g inline r -> reached (count_rules g) r = true ->
+    peg_parse g ptx buf penv (S n) r = Some rr ->
+    ~ xcall buf penv (mk_opts true memo inline g) (gen_fn g ptx inline) r (reset st0) Crash.
+Proof. exact generated_code_never_crashes. Qed.
+Print Assumptions C13_generated_code_never_crashes.
 
 Example C13_nonvacuous :
   verdict_of (peg_parse ex_g ex_ptx [] (std_penv []) 60 0) = Some None /\
